@@ -207,7 +207,7 @@ func reg(name, data string) Entry { return Entry{Name: name, Type: "reg", Data: 
 
 func adv(name, typ, route string) Entry {
 	e := Entry{Name: name, Type: typ, Route: route, Actual: -1}
-	if typ == "reg" {
+	if payloadFlag(typeflag(typ)) {
 		e.Data = "payload\n"
 	}
 	return e
@@ -220,6 +220,12 @@ var variants = []variant{
 	{"reg", ""}, {"dir", ""}, {"symrel", ""}, {"symdd", ""}, {"symabs", ""}, {"hard", ""}, {"char", ""}, {"fifo", ""}, {"xglob", ""},
 	{"reg", "pax"}, {"reg", "gnu"}, {"reg", "prefix"},
 }
+
+// payloadTypes: every type flag under which archive/tar delivers file data.
+var payloadTypes = []string{"reg", "rega", "cont", "sparse", "unk"}
+
+// loadVariants: the in-memory loaders additionally see every name under the other payload-carrying type flags.
+var loadVariants = append(append([]variant{}, variants...), variant{"rega", ""}, variant{"cont", ""}, variant{"sparse", ""}, variant{"unk", ""})
 
 var chartNames = []string{"x", "../x", "/abs", "a/b", ""}
 
@@ -398,7 +404,7 @@ func phaseLoadNames(x *explorer) {
 	x.c.Bound("names_total", fmt.Sprint(len(names)))
 	for _, n := range names {
 		for _, base := range []string{"", "x/"} {
-			for _, v := range variants {
+			for _, v := range loadVariants {
 				x.do(Case{EP: "loadfiles", Entries: []Entry{adv(base+n, v.Type, v.Route)}})
 				x.do(Case{EP: "loadarchive", Entries: with(baseline("x")[:1], false, adv(base+n, v.Type, v.Route))})
 			}
@@ -586,6 +592,8 @@ func sizeOptions(F, T int64) []sizeOpt {
 		// above the per-file limit by more than the counting oracle's slack, yet within the total budget (when T allows):
 		// a loader that only rejects such a member after reading it is seen by the bytes pulled, not by the result
 		{"reg", F + 600, -1, ""}, {"reg", T, -1, ""}, {"reg", T - 1, -1, "pax"},
+		// the same under the other payload-carrying type flags
+		{"rega", F + 600, -1, ""}, {"cont", F + 600, -1, ""}, {"sparse", F + 600, -1, ""}, {"unk", F + 600, -1, ""}, {"unk", 1, -1, ""},
 	}
 	return o
 }
@@ -667,14 +675,25 @@ func phaseSizes(x *explorer) {
 				}
 				for _, via := range []string{"", "pax", "b256"} {
 					for _, lead := range []string{"", "bom"} {
-						var es []Entry
-						for i, p := range pre {
-							es = append(es, Entry{Name: fmt.Sprintf("x/f%d", i), Type: "reg", Size: p, Actual: -1})
+						for _, bt := range payloadTypes {
+							if bt != "reg" && lead != "" || bt == "sparse" && via != "" {
+								continue
+							}
+							prefixTypes := []string{"reg"}
+							if bt != "reg" && len(pre) > 0 {
+								prefixTypes = append(prefixTypes, bt)
+							}
+							for _, pt := range prefixTypes {
+								var es []Entry
+								for i, p := range pre {
+									es = append(es, Entry{Name: fmt.Sprintf("x/f%d", i), Type: pt, Size: p, Actual: -1})
+								}
+								es = append(es, Entry{Name: "x/big", Type: bt, Size: sz, Actual: -1, SizeVia: via, Lead: lead})
+								overLast += 2
+								x.do(Case{EP: "loadfiles", Entries: es, FileLimit: F, TotalLimit: T})
+								x.do(Case{EP: "loadarchive", Entries: with([]Entry{reg("x/Chart.yaml", chartYAML("x"))}, false, es...), FileLimit: F, TotalLimit: T})
+							}
 						}
-						es = append(es, Entry{Name: "x/big", Type: "reg", Size: sz, Actual: -1, SizeVia: via, Lead: lead})
-						overLast += 2
-						x.do(Case{EP: "loadfiles", Entries: es, FileLimit: F, TotalLimit: T})
-						x.do(Case{EP: "loadarchive", Entries: with([]Entry{reg("x/Chart.yaml", chartYAML("x"))}, false, es...), FileLimit: F, TotalLimit: T})
 					}
 				}
 			}
